@@ -257,7 +257,9 @@ def run(tier, seed):
     cases, un = c09.make_cases(rng, "quick")
     plain = [c for c in cases if c["solver"] == "plain"]
     cases = rng.sample(cases, 150 if tier == "quick" else 3000) + rng.sample(plain, min(len(plain), 40))
-    common.write_data_module(wd, "OmegaCases", {"Cases": common.TlaSet(cases), "Unreach": common.TlaSet(un[:20])})
+    common.write_data_module(wd, "OmegaCases", {"Cases": common.TlaSet(cases), "Unreach": common.TlaSet(un[:20]),
+                                                "PSolvers": common.TlaSet([]), "PTh": common.TlaSet([]), "PEta": common.TlaSet([]),
+                                                "POm": common.TlaSet([]), "PTilt": common.TlaSet([])})
     rom = common.run_tlc("Omega", "MC_Omega.cfg", wd, timeout=900)
     states += rom.distinct
     trans += rom.generated
